@@ -118,6 +118,13 @@ def run(ctx):
         from ctx import MachineryError
         raise MachineryError("ChartRoute.tla: the early-stopping partitioner violates nothing (vacuous model)")
     ctx.extra["model_variant_stop_early_violates"] = bad.violated
+    # non-vacuity at the framing level: brace indices kept in a queue that no section close clears (Framing.tla, Design =
+    # "deque" - seeded change C13j) must violate OwnBlock: a stray "{" in one body moves the start of every later section
+    bad2 = ctx.mc("MC_Framing", "MC_Framing_staleopen", allow_violation=True, deadlock=False)
+    if bad2.violated != "OwnBlock":
+        from ctx import MachineryError
+        raise MachineryError("Framing.tla: the never-cleared queue of brace indices does not violate OwnBlock (vacuous model): " + str(bad2.violated))
+    ctx.extra["model_variant_stale_open_brace_violates"] = bad2.violated
     res = ctx.mc("MC_ChartRoute", ctx.pick("MC_ChartRoute_quick", "MC_ChartRoute"), deadlock=False, timeout=1500)
     beh = _notes._behaviours(res)
     ctx.extra["route_behaviours"] = len(beh)
